@@ -705,7 +705,9 @@ def mul_rules(prog, chk, pid):
                         break
                     entries.append((val, tuple(f for f in ctx_ if f[0] == "loop")))
     ok, why = len(news) == 1 and len(entries) == 2, "expected one start point and a table with a first entry and the loop's entries (found %d table steps)" % len(entries)
-    loops = [l for l in ex.loops.values() if "doubler" in l.next]
+    # (the variable that carries the doubling point: `doubler`, or that name with the prefix a fused generator's locals get)
+    dnames = {l.id: nm for l in ex.loops.values() for nm in l.next if nm == "doubler" or nm.endswith("_doubler")}
+    loops = [l for l in ex.loops.values() if l.id in dnames]
     if ok:
         a = news[0].d["args"]
         ok = len(a) >= 4 and all(unsnap(a[1 + i]).op == "sub" and "coords" in show(a[1 + i], 3) and is_const(unsnap(a[1 + i]).args[1]) and cval(unsnap(a[1 + i]).args[1]) == i for i in range(3)) and len(loops) == 1
@@ -713,14 +715,14 @@ def mul_rules(prog, chk, pid):
     if ok:
         lr = loops[0]
         d0 = unsnap(news[0].d["result"])
-        dl = mk("loopvar", lr.id, "doubler")
-        nxt = unsnap(lr.next["doubler"])
+        dl = mk("loopvar", lr.id, dnames[lr.id])
+        nxt = unsnap(lr.next[dnames[lr.id]])
         mc = meth_call(nxt)
         inner = nxt
         if mc and mc[1] == "scale" and not mc[2]:
             inner = unsnap(mc[0])
         mc2 = meth_call(inner)
-        ok = unsnap(lr.init["doubler"]) is d0 and mc2 is not None and mc2[1] == "double" and not mc2[2] and unsnap(mc2[0]) is dl
+        ok = unsnap(lr.init[dnames[lr.id]]) is d0 and mc2 is not None and mc2[1] == "double" and not mc2[2] and unsnap(mc2[0]) is dl
         why = "the doubling point is not updated as doubler.double() (optionally scaled)"
 
         def affine_pair(v, of):
